@@ -101,6 +101,7 @@ func cmdCheck(args []string) int {
 	updateBaseline := fs.Bool("update-baseline", false, "record discharged obligations into baseline_obligations.json")
 	timeout := fs.Int("timeout", 0, "per-obligation solver timeout in ms")
 	progress := fs.Bool("progress", false, "print each obligation's result to stderr as soon as it is known")
+	nocache := fs.Bool("nocache", false, "do not use the query-answer cache")
 	noesc := fs.Bool("noescalate", false, "do not escalate undecided obligations to longer timeouts (debugging)")
 	dump := fs.String("dump", "", "write the sliced SMT query of obligations whose name contains this string to the work dir and exit (debugging)")
 	fs.Parse(args)
@@ -132,6 +133,10 @@ func cmdCheck(args []string) int {
 		defer os.RemoveAll(work)
 	}
 
+	cacheDir := filepath.Join(vdir, ".cache", "smt")
+	if *nocache || os.Getenv("NRIVERIF_NOCACHE") != "" {
+		cacheDir = ""
+	}
 	var results []*engine.UnitResult
 	var resMu sync.Mutex
 	tagCount := 0
@@ -198,7 +203,7 @@ func cmdCheck(args []string) int {
 				defer wg.Done()
 				sem <- struct{}{}
 				defer func() { <-sem }()
-				so := engine.SolveOpts{WorkDir: work, TimeoutMs: *timeout, SecondOpin: *tier == "thorough", Seed: seed, NoEscalate: *noesc}
+				so := engine.SolveOpts{CacheDir: cacheDir, WorkDir: work, TimeoutMs: *timeout, SecondOpin: *tier == "thorough", Seed: seed, NoEscalate: *noesc}
 				if *progress {
 					so.Progress = func(o *engine.Obligation) {
 						fmt.Fprintf(os.Stderr, "  %-8s %-22s %5.1fs %s\n", o.Status, o.Solver, o.TimeS, o.Name)
@@ -268,9 +273,9 @@ func report(vdir, prop, tier string, seed int, results []*engine.UnitResult, t0 
 
 	broken := 0
 	var violations []string
-	var kfLines []string
-	var undecided []string
-	var notes []string
+	kfLines := []string{}
+	undecided := []string{}
+	notes := []string{}
 	nObl, nDis := 0, 0
 	nBounded, nBoundedDis := 0, 0
 	byBackend := map[string]int{}
@@ -281,6 +286,7 @@ func report(vdir, prop, tier string, seed int, results []*engine.UnitResult, t0 
 	var dischargedNames []string
 	vac := map[string]int{"cover_obligations": 0, "covered": 0}
 	deferred := 0
+	nCached := 0
 	os.MkdirAll(filepath.Join(vdir, "replays", prop), 0o755)
 
 	sort.Slice(results, func(i, j int) bool { return results[i].Unit < results[j].Unit })
@@ -300,6 +306,9 @@ func report(vdir, prop, tier string, seed int, results []*engine.UnitResult, t0 
 				continue
 			}
 			solverTime += o.TimeS
+			if o.Cached {
+				nCached++
+			}
 			if o.Cover {
 				vac["cover_obligations"]++
 				switch o.Status {
@@ -414,7 +423,7 @@ func report(vdir, prop, tier string, seed int, results []*engine.UnitResult, t0 
 	}
 
 	// evidence
-	var alist []string
+	alist := []string{}
 	for a := range assumptions {
 		alist = append(alist, a)
 	}
@@ -443,6 +452,7 @@ func report(vdir, prop, tier string, seed int, results []*engine.UnitResult, t0 
 			"samples":                  samples,
 			"notes":                    notes,
 			"clauses_deferred_to_thorough_tier": deferred,
+			"answers_from_query_cache":          nCached,
 		},
 		"assumptions": alist,
 		"wall_s":      wall,
